@@ -11,6 +11,7 @@
 //!   # ...          statistics
 mod fam_codecw;
 mod fam_iovec;
+mod fam_hcobs;
 mod fam_readn;
 mod fam_tlv;
 mod util;
@@ -27,6 +28,8 @@ fn families() -> Vec<Box<dyn Family>> {
     v.push(Box::new(fam_codecw::CodecWFamily));
     v.push(Box::new(fam_tlv::TlvFamily));
     v.push(Box::new(fam_tlv::TlvViewFamily));
+    v.push(Box::new(fam_hcobs::HcobsEncFamily));
+    v.push(Box::new(fam_hcobs::HcobsDecFamily));
     v
 }
 
